@@ -319,7 +319,7 @@ func (rn *runner) vt(tag string, c chainCfg, height uint64, tx *types.Transactio
 	c.apply()
 	o := newOracle()
 	if tx.Type == types.TransactionTypeETHTX {
-		ethOracle(o, common.FromHex(tx.ExtraData), common.GetChainId(height))
+		ethOracle(o, common.FromHex(tx.ExtraData), refEthChain(c, height))
 	} else {
 		nativeOracle(o, tx)
 	}
@@ -1064,6 +1064,14 @@ func main() {
 	for _, k := range pool2.all() {
 		rn.addr("addr-boundary-key", pubBytes(&k.PublicKey))
 	}
+	// deterministic small-scope families first: the fork boundary P-1, P, P+1 of every schedule whose
+	// chain id changes, honest transactions of both ids, native and wrapped ETH
+	for _, fk := range []*ecdsa.PrivateKey{pool2.short[0], g.key()} {
+		for _, fc := range forkCases(g, fk) {
+			chainIdReferenceCheck(fc.c, fc.height)
+			rn.vt(fc.tag, fc.c, fc.height, fc.tx)
+		}
+	}
 	n := hx.ArgInt(a, "n", 40)
 	for i := 0; i < n; i++ {
 		c := cfgs[i%len(cfgs)]
@@ -1078,7 +1086,8 @@ func main() {
 		k := g.keyFrom(pool2)
 		rn.addr("addr-key", pubBytes(&k.PublicKey))
 		// native
-		cid := common.ChainId(height)
+		chainIdReferenceCheck(c, height)
+		cid := refChainIdStr(c, height)
 		other := c.orig
 		if cid == c.orig {
 			other = c.chainId
@@ -1112,10 +1121,7 @@ func main() {
 			rn.vt("native-other-height", c, h2, tx)
 		}
 		// ethereum
-		chain := common.GetChainId(height)
-		if chain == nil {
-			chain = new(big.Int)
-		}
+		chain := refEthChain(c, height)
 		et, err := eth_tx.SignTx(g.ethUnsigned(), eth_tx.NewEIP155Signer(chain), k)
 		if err != nil {
 			panic(err)
@@ -1149,6 +1155,9 @@ func main() {
 		}
 		for _, m := range ethFieldMutants(g.r, wtx) {
 			rn.vt("eth-mut-"+m.field, c, height, m.tx)
+		}
+		for _, uc := range unsignedCases(g, et, k, chain) {
+			rn.vt("eth-unsigned-"+uc.name, c, height, uc.tx)
 		}
 		// Homestead-signed and other-chain payloads, wrapped as eth_rpc would wrap them
 		hom, _ := eth_tx.SignTx(g.ethUnsigned(), eth_tx.HomesteadSigner{}, k)
